@@ -393,7 +393,8 @@ theorem offDiag_ne_zero {L : LMat n} (D : AMat Ext n) (hD : IsDist L (lenFun D))
   exact entry_ne_zero_of_pos D p.1 p.2 (isDist_pos_offdiag hD hL p.1 p.2 ((mem_offDiag p).mp hp))
 
 /-- **`charpath_spec`** (`charpath(D)` with its defaults `include_diagonal=False, include_infinite=True`), for any matrix
-`D` that is the distance matrix of positive connection lengths `L` (e.g. the output of any of the five routines):
+`D` that is the distance matrix of positive connection lengths `L` with its zero diagonal (outputs of `distance_bin`,
+`distance_wei`, `distance_wei_floyd`; for the raw `breadthdist` / `reachdist` outputs use `charpath_spec_offdiag`):
 `efficiency` is the mean of `1/D i j` over the ordered pairs of distinct nodes (`1/∞ = 0`); `lambda` is the mean of
 `D i j` over those pairs when all are finite, and `∞` as soon as one pair is unreachable (NumPy's mean of an array
 containing `inf`) -/
@@ -431,6 +432,61 @@ theorem charpath_spec {L : LMat n} (hL : ∀ i j, 0 < L i j) (D : AMat Ext n) (h
     apply meanExt_inf
     rw [← hinf]
     exact List.mem_map.mpr ⟨p, hp, rfl⟩
+
+/-- **`charpath_spec_offdiag`**: the same statement for a matrix whose *diagonal is arbitrary* — the raw outputs of
+`breadthdist` / `reachdist` hold `∞` or the length of the shortest cycle through the node there.  The hypothesis is on
+the ordered pairs of distinct nodes only (`zeroDiag'` overwrites the diagonal before `IsDist` is asked); `charpath` with
+`include_diagonal=False` never reads the diagonal. -/
+theorem charpath_spec_offdiag {L : LMat n} (hL : ∀ i j, 0 < L i j) (D : AMat Ext n)
+    (hD : IsDist L (zeroDiag' (lenFun D))) (hn : 2 ≤ n) :
+    (charpath D false true).2 = some (.fin (meanInvSpec D)) ∧
+    ((∀ p ∈ offDiag n, (D.get p.1 p.2).isFin = true) → (charpath D false true).1 = some (.fin (meanSpec D))) ∧
+    ((∃ p ∈ offDiag n, D.get p.1 p.2 = .inf) → (charpath D false true).1 = some .inf) := by
+  -- the matrix with its diagonal zeroed has the same off-diagonal cells, hence the same `charpath` (defaults) and means
+  let D0 : AMat Ext n := AMat.ofFn fun i j => if i = j then .fin 0 else D.get i j
+  have hcell : ∀ p ∈ offDiag n, D0.get p.1 p.2 = D.get p.1 p.2 := by
+    intro p hp
+    have := (mem_offDiag p).mp hp
+    simp [D0, this]
+  have hlen : lenFun D0 = zeroDiag' (lenFun D) := by
+    funext i j
+    simp only [lenFun, zeroDiag', D0, AMat.get_ofFn]
+    split_ifs <;> simp
+  have hmap : ∀ f : Ext → Ext, (offDiag n).map (fun p => f (D0.get p.1 p.2)) = (offDiag n).map (fun p => f (D.get p.1 p.2)) := by
+    intro f
+    apply List.map_congr_left
+    intro p hp; rw [hcell p hp]
+  have hmapQ : ∀ f : Ext → ℚ, (offDiag n).map (fun p => f (D0.get p.1 p.2)) = (offDiag n).map (fun p => f (D.get p.1 p.2)) := by
+    intro f
+    apply List.map_congr_left
+    intro p hp; rw [hcell p hp]
+  have hcp : charpath D0 false true = charpath D false true := by
+    simp only [charpath]
+    have := hmap id
+    simp only [id] at this
+    simp only [Bool.false_eq_true, if_false, this]
+  have hmi : meanInvSpec D0 = meanInvSpec D := by simp only [meanInvSpec, hmapQ invQ]
+  have hm : meanSpec D0 = meanSpec D := by simp only [meanSpec, hmapQ finVal]
+  have key := charpath_spec hL D0 (by rw [hlen]; exact hD) hn
+  rw [hcp, hmi, hm] at key
+  refine ⟨key.1, fun hall => key.2.1 (fun p hp => by rw [hcell p hp]; exact hall p hp), ?_⟩
+  rintro ⟨p, hp, hinf⟩
+  exact key.2.2 ⟨p, hp, by rw [hcell p hp]; exact hinf⟩
+
+/-- `charpath` on the raw output of `reachdist` (any input) and of `breadthdist` (empty diagonal) -/
+theorem charpath_reachdist_spec (A : AMat Rat n) (hn : 2 ≤ n) :
+    (charpath (reachdist A).2 false true).2 = some (.fin (meanInvSpec (reachdist A).2)) ∧
+    ((∀ p ∈ offDiag n, ((reachdist A).2.get p.1 p.2).isFin = true) →
+      (charpath (reachdist A).2 false true).1 = some (.fin (meanSpec (reachdist A).2))) ∧
+    ((∃ p ∈ offDiag n, (reachdist A).2.get p.1 p.2 = .inf) → (charpath (reachdist A).2 false true).1 = some .inf) :=
+  charpath_spec_offdiag (hopLen_pos A) _ (reachdist_correct A).1 hn
+
+theorem charpath_breadthdist_spec (A : AMat Rat n) (hdiag : ∀ i, A.get i i = 0) (R : AMat Bool n) (D : AMat Ext n)
+    (h : breadthdist A = some (R, D)) (hn : 2 ≤ n) :
+    (charpath D false true).2 = some (.fin (meanInvSpec D)) ∧
+    ((∀ p ∈ offDiag n, (D.get p.1 p.2).isFin = true) → (charpath D false true).1 = some (.fin (meanSpec D))) ∧
+    ((∃ p ∈ offDiag n, D.get p.1 p.2 = .inf) → (charpath D false true).1 = some .inf) :=
+  charpath_spec_offdiag (hopLen_pos A) D (breadthdist_correct A hdiag R D h).1 hn
 
 /-- `charpath(D, include_infinite=False)`: unreachable pairs are left out of both means (`none` = NaN when no pair is
 reachable) -/
